@@ -3,7 +3,7 @@
 (* Model checking of the byte-level stream ciphers: the implementation-    *)
 (* shaped wrapper + core of ImplStream.tla drives System.tla's actions for *)
 (* EVERY sequence of at most DEPTH operations                              *)
-(*     apply(n) for n in 0 .. 2*BS+1,  seek(t, p),  current_pos(t),        *)
+(*     apply(n) for n in APPLYS,       seek(t, p),  current_pos(t),        *)
 (*     remaining_blocks()                                                  *)
 (* with counters scaled down (digits in base 4, FL digits per counter) so  *)
 (* that the end of the keystream (4^FL - 1 blocks) is reached and crossed  *)
@@ -16,7 +16,8 @@
 (* the known finding (C11) and is run as an EXPECTED counterexample.       *)
 (***************************************************************************)
 EXTENDS SymAlg, Json
-CONSTANTS KINDS, BS, FL, DEPTH, FIELDS, SEEKS, TYPES, USIZE, PROP
+CONSTANTS KINDS, BS, FL, DEPTH, FIELDS, SEEKS, TYPES, USIZE, PROP,
+          APPLYS     \* request lengths (bytes) offered to apply_keystream
 VARIABLES objs, last, ks, ksbad, dbg, fin, ist, sch, kd, nops, total
 
 SFieldLen(k) == FL
@@ -76,7 +77,7 @@ DoRem ==
 
 Frame == nops < DEPTH /\ nops' = nops + 1 /\ fin' = (nops + 1 = DEPTH) /\ UNCHANGED kd
 
-ActApply == (\E n \in 0..(2 * BS + 1) : DoApply(n)) /\ Frame
+ActApply == (\E n \in APPLYS : DoApply(n)) /\ Frame
 ActSeek  == (\E t \in TYPES : \E p \in SEEKS : DoSeek(t, p)) /\ Frame
 ActPos   == (\E t \in TYPES : DoPos(t)) /\ Frame
 ActRem   == DoRem /\ Frame
